@@ -88,7 +88,7 @@ impl Property for C05 {
     fn id(&self) -> &'static str { "C05" }
     fn level(&self) -> &'static str { "exploration" }
     fn rule(&self) -> &'static str {
-        "client A: optional WATCH of 1-2 keys (of any type), MULTI, 0-5 body commands from all data families incl. ones that fail at run time, plus unknown/wrong-arity commands (queue-time errors), nested MULTI, WATCH inside MULTI, then EXEC or DISCARD, optionally followed by a second transaction on the same connection; client B: 0-4 commands (value-changing, value-preserving, delete-and-recreate, type-changing, expiry) placed in tape-chosen gaps between A's commands (mode 1) or in flight together with A's EXEC with handler polls interleaved by the tape (mode 2). 1 or 4 shards. Non-trivial = B wrote a watched or body key between WATCH and EXEC; distinct = (A's script, B's commands and positions, schedule)"
+        "client A: optional WATCH of 1-2 keys (of any type), sometimes a second WATCH naming the same or other keys, MULTI, 0-5 body commands from all data families incl. ones that fail at run time, plus unknown/wrong-arity commands (queue-time errors), nested MULTI, WATCH inside MULTI, then EXEC or DISCARD, optionally followed by a second transaction on the same connection; client B: 0-4 commands (value-changing, value-preserving, delete-and-recreate, type-changing, expiry) placed in tape-chosen gaps between A's commands (mode 1) or in flight together with A's EXEC with handler polls interleaved by the tape (mode 2). 1 or 4 shards. Non-trivial = B wrote a watched or body key between WATCH and EXEC; distinct = (A's script, B's commands and positions, schedule)"
     }
     fn components_real(&self) -> Vec<&'static str> { vec!["production::connection_optimized::OptimizedConnectionHandler transaction state machine (MULTI/EXEC/DISCARD/WATCH/UNWATCH, queueing, EXECABORT, watch comparison) through hook H1", "ShardedActorState + shard actors + CommandExecutor for every queued and plain command"] }
     fn components_stubbed(&self) -> Vec<&'static str> { vec!["TCP -> SimStream, one command per read", "the oracle twin executes plain commands through ShardedActorState::execute on a second state (it has no transaction logic of its own)"] }
@@ -111,6 +111,8 @@ impl Property for C05 {
         let n_tx = 1 + src.below(2);
         for _ in 0..n_tx {
             if src.chance(2, 3) { let mut ks = vec![g.key(src)]; if src.chance(1, 3) { ks.push(g.key(src)); } a.push(AStep::Watch(ks)); }
+            // a second WATCH, often naming a key that is already watched (the first snapshot keeps counting)
+            if src.chance(1, 4) { let mut ks = vec![g.key(src)]; if src.chance(1, 2) { ks.push(g.key(src)); } a.push(AStep::Watch(ks)); }
             if src.chance(1, 10) { a.push(AStep::Unwatch); }
             if src.chance(1, 6) { a.push(AStep::Plain(gen1(src, &mut g))); }
             a.push(AStep::Multi);
